@@ -106,8 +106,11 @@ Definition rp_rollback (v : rp_variant) (s : rp_state) : rp_state :=
                         (rp_undef s1).
 
 (* what arrives: the sequence number in the Partial IV, whether the AEAD tag verifies under the
-   recipient key, and (for a message that decrypts) what its inner Echo option looks like *)
-Inductive rp_auth := RpGenuine | RpForged.
+   recipient key, and (for a message that decrypts) what its inner Echo option looks like.
+   [RpUnroutable]: the message never gets as far as RFC 8613 8.2 step 3 for this recipient
+   context - the OSCORE option cannot be decoded or has no kid (4.02), or no security context
+   matches kid / kid context (4.01 "Security context not found"). *)
+Inductive rp_auth := RpGenuine | RpForged | RpUnroutable.
 Inductive rp_echo := RpEchoNone | RpEchoOk | RpEchoBad.
 Record rp_msg := { rp_m_seq : Z; rp_m_auth : rp_auth; rp_m_echo : rp_echo }.
 
@@ -116,7 +119,8 @@ Inductive rp_verdict :=
 | RpRejReplay     (* 4.01 "Replay detected" *)
 | RpRejDecrypt    (* 4.00 "Decryption failed" *)
 | RpRejChallenge  (* B.1.2: 4.01 with a fresh Echo value *)
-| RpRejEchoBad.   (* B.1.2: Echo present but wrong: dropped *)
+| RpRejEchoBad    (* B.1.2: Echo present but wrong: dropped *)
+| RpRejUnroutable. (* 4.02 / 4.01 before any recipient context is touched *)
 
 (* the validation done after decryption while the context is in its initial state *)
 Definition rp_arm (v : rp_variant) (W : Z) (s : rp_state) (seq : Z) : rp_verdict * rp_state :=
@@ -127,6 +131,9 @@ Definition rp_arm (v : rp_variant) (W : Z) (s : rp_state) (seq : Z) : rp_verdict
 Definition rp_recv (v : rp_variant) (W : Z) (b12 : bool) (s : rp_state) (m : rp_msg)
   : rp_verdict * rp_state :=
   let seq := rp_m_seq m in
+  match rp_m_auth m with
+  | RpUnroutable => (RpRejUnroutable, s)      (* 8.2 step 2 fails *)
+  | _ =>
   (* 8.2 step 3: if (rcp_ctx->initial_state == 0 && !oscore_validate_sender_seq(...)) *)
   let '(ok, s1) := if rp_initial s then (true, s) else rp_validate v W s seq in
   if negb ok then (RpRejReplay, s1)
@@ -136,6 +143,7 @@ Definition rp_recv (v : rp_variant) (W : Z) (b12 : bool) (s : rp_state) (m : rp_
               else Build_rp_state seq (rp_win s1) (rp_rb_last s1) (rp_rb_win s1)
                                   (rp_initial s1) (rp_undef s1) in
     match rp_m_auth m with
+    | RpUnroutable => (RpRejUnroutable, s)
     | RpForged => (RpRejDecrypt, rp_rollback v s2)       (* 8.2 step 6 fails *)
     | RpGenuine =>
       if rp_initial s2 then
@@ -148,7 +156,8 @@ Definition rp_recv (v : rp_variant) (W : Z) (b12 : bool) (s : rp_state) (m : rp_
         else if rp_v_arm v then rp_arm v W s2 seq
         else (RpAccept, s2)
       else (RpAccept, s2)
-    end.
+    end
+  end.
 
 (* a history: verdict of every step and the final state *)
 Fixpoint rp_run (v : rp_variant) (W : Z) (b12 : bool) (s : rp_state) (h : list rp_msg)
@@ -177,7 +186,7 @@ Definition rp_accepted (v : rp_variant) (W : Z) (b12 : bool) (s : rp_state) (h :
 Definition rp_obs (s : rp_state) : Z * Z * bool := (rp_last s, rp_win s, rp_initial s).
 
 Definition rp_is_genuine (m : rp_msg) : bool :=
-  match rp_m_auth m with RpGenuine => true | RpForged => false end.
+  match rp_m_auth m with RpGenuine => true | RpForged | RpUnroutable => false end.
 
 (* verdicts of the genuine messages only *)
 Fixpoint rp_genuine_verdicts (h : list rp_msg) (rs : list rp_verdict) : list rp_verdict :=
@@ -218,15 +227,18 @@ Definition rp_abs_accept (a : rp_abs) (seq : Z) : rp_abs :=
 
 Definition rp_abs_recv (W : Z) (b12 : bool) (a : rp_abs) (m : rp_msg) : rp_verdict * rp_abs :=
   let seq := rp_m_seq m in
+  match rp_m_auth m with
+  | RpUnroutable => (RpRejUnroutable, a)
+  | _ =>
   if rp_a_armed a then
     if negb (rp_abs_fresh W a seq) then (RpRejReplay, a)
     else match rp_m_auth m with
-         | RpForged => (RpRejDecrypt, a)
+         | RpForged | RpUnroutable => (RpRejDecrypt, a)
          | RpGenuine => (RpAccept, rp_abs_accept a seq)
          end
   else
     match rp_m_auth m with
-    | RpForged => (RpRejDecrypt, a)
+    | RpForged | RpUnroutable => (RpRejDecrypt, a)
     | RpGenuine =>
       let go := if rp_abs_fresh W a seq then (RpAccept, rp_abs_accept a seq) else (RpRejReplay, a) in
       if b12 then
@@ -236,7 +248,8 @@ Definition rp_abs_recv (W : Z) (b12 : bool) (a : rp_abs) (m : rp_msg) : rp_verdi
         | RpEchoNone => (RpRejChallenge, a)
         end
       else go
-    end.
+    end
+  end.
 
 Fixpoint rp_abs_run (W : Z) (b12 : bool) (a : rp_abs) (h : list rp_msg)
   : list rp_verdict * rp_abs :=
